@@ -264,7 +264,7 @@ func mutate(rt *rapid.T, data []byte, maxLen int) ([]byte, mutation) {
 		out = append(out, data[n.Start+hl:]...)
 		return out
 	}
-	kind := rapid.IntRange(0, 13).Draw(rt, "mutKind")
+	kind := rapid.IntRange(0, 15).Draw(rt, "mutKind")
 	if nodes == nil && kind < 9 {
 		kind = 9 + kind%3
 	}
@@ -471,6 +471,47 @@ func mutate(rt *rapid.T, data []byte, maxLen int) ([]byte, mutation) {
 		repl := append([]byte{0xa1}, key.Encode()...)
 		repl = append(repl, data[n.Start:n.End]...)
 		return clipTo(splice(n, repl), maxLen), mutation{"mapkey", fmt.Sprintf("%s at %d -> {%s: it}", n.Kind, n.Start, kname)}
+	case 14, 15: // reshape a LATER entry of a list / map (the first entry stays valid), or append one
+		if nodes == nil {
+			break
+		}
+		clone := root.Clone()
+		var conts []*xcbor.Node
+		clone.Walk(func(n *xcbor.Node) {
+			if (n.Kind == xcbor.Array && len(n.Items) >= 1) || (n.Kind == xcbor.Map && len(n.Items) >= 2) {
+				conts = append(conts, n)
+			}
+		})
+		if len(conts) == 0 {
+			break
+		}
+		var c *xcbor.Node
+		if len(conts) > 12 && rapid.IntRange(0, 2).Draw(rt, "outerCont") != 0 {
+			c = conts[rapid.IntRange(0, 11).Draw(rt, "contOuter")]
+		} else {
+			c = conts[rapid.IntRange(0, len(conts)-1).Draw(rt, "cont")]
+		}
+		step := 1
+		if c.Kind == xcbor.Map {
+			step = 2
+		}
+		nEntries := len(c.Items) / step
+		shape := rapid.IntRange(0, len(entryShapeNames)-1).Draw(rt, "entryShape")
+		if nEntries < 2 || rapid.IntRange(0, 4).Draw(rt, "appendEntry") == 0 {
+			if c.Kind == xcbor.Map {
+				c.Items = append(c.Items, xcbor.U(uint64(1000+shape)))
+			}
+			c.Items = append(c.Items, reshapeEntry(xcbor.A(xcbor.U(0), xcbor.U(1)), shape))
+			return clipTo(clone.Encode(), maxLen), mutation{"entry", fmt.Sprintf("%s at %d: appended an entry of shape %s", c.Kind, c.Start, entryShapeNames[shape])}
+		}
+		i := rapid.IntRange(1, nEntries-1).Draw(rt, "laterEntry")
+		slot := i*step + step - 1
+		if shape == len(entryShapeNames)-1 { // remove the entry altogether
+			c.Items = append(c.Items[:i*step:i*step], c.Items[(i+1)*step:]...)
+		} else {
+			c.Items[slot] = reshapeEntry(c.Items[slot], shape)
+		}
+		return clipTo(clone.Encode(), maxLen), mutation{"entry", fmt.Sprintf("entry %d of %s at %d -> %s", i, c.Kind, c.Start, entryShapeNames[shape])}
 	default: // random cut anywhere
 		if len(data) == 0 {
 			break
@@ -707,4 +748,139 @@ var (
 func mapKeyKindsCached() []namedNode {
 	mapKeyKindsOnce.Do(func() { mapKeyKindsVal = mapKeyKinds() })
 	return mapKeyKindsVal
+}
+
+// ---- later entries of per-transaction lists ---------------------------------------
+
+var entryShapeNames = []string{"empty-array", "one-element", "drop-last-element", "extra-element", "uint", "bytes", "empty-map", "null", "removed"}
+
+// reshapeEntry returns entry e in one of the malformed shapes (well-formed CBOR).
+func reshapeEntry(e *xcbor.Node, shape int) *xcbor.Node {
+	switch entryShapeNames[shape] {
+	case "empty-array":
+		return xcbor.A()
+	case "one-element":
+		if e.Kind == xcbor.Array && len(e.Items) > 0 {
+			n := xcbor.A(e.Items[0])
+			n.Indef = e.Indef
+			return n
+		}
+		return xcbor.A(e)
+	case "drop-last-element":
+		if e.Kind == xcbor.Array && len(e.Items) > 0 {
+			n := xcbor.A(e.Items[:len(e.Items)-1]...)
+			n.Indef = e.Indef
+			return n
+		}
+		return xcbor.A()
+	case "extra-element":
+		if e.Kind == xcbor.Array {
+			n := xcbor.A(append(append([]*xcbor.Node(nil), e.Items...), xcbor.U(0))...)
+			n.Indef = e.Indef
+			return n
+		}
+		return xcbor.A(e, xcbor.U(0), xcbor.U(0))
+	case "uint":
+		return xcbor.U(0)
+	case "bytes":
+		return xcbor.B([]byte{})
+	case "empty-map":
+		return xcbor.M()
+	default:
+		return xcbor.Null()
+	}
+}
+
+// laterEntryVariants enumerates, for every list / map down to maxDepth below
+// the root of a valid encoding, its 2nd, 3rd and last entry in every malformed
+// shape plus appended entries, leaving the first entry (which classifiers look
+// at) untouched. Only containers whose entries are themselves lists or maps
+// (per-transaction lists, block components) are touched. full=false keeps the
+// 2nd and last entry and the six shapes that change arity or type.
+func laterEntryVariants(name string, data []byte, maxDepth int, full bool) []struct {
+	Name string
+	Data []byte
+} {
+	type hc = struct {
+		Name string
+		Data []byte
+	}
+	root, err := xcbor.ParseExact(data)
+	if err != nil {
+		return nil
+	}
+	type cont struct {
+		path []int
+		n    *xcbor.Node
+	}
+	var conts []cont
+	var walk func(n *xcbor.Node, path []int, depth int)
+	walk = func(n *xcbor.Node, path []int, depth int) {
+		if (n.Kind == xcbor.Array && len(n.Items) > 0 && (n.Items[0].Kind == xcbor.Array || n.Items[0].Kind == xcbor.Map)) ||
+			(n.Kind == xcbor.Map && len(n.Items) > 1 && (n.Items[1].Kind == xcbor.Array || n.Items[1].Kind == xcbor.Map)) {
+			conts = append(conts, cont{append([]int(nil), path...), n})
+		}
+		if depth >= maxDepth {
+			return
+		}
+		for i, c := range n.Items {
+			if i >= 6 { // the first few children are enough to reach every per-tx list
+				break
+			}
+			walk(c, append(path, i), depth+1)
+		}
+	}
+	walk(root, nil, 0)
+	at := func(r *xcbor.Node, path []int) *xcbor.Node {
+		for _, i := range path {
+			r = r.Items[i]
+		}
+		return r
+	}
+	var out []hc
+	for _, c := range conts {
+		step := 1
+		if c.n.Kind == xcbor.Map {
+			step = 2
+		}
+		nEntries := len(c.n.Items) / step
+		pos := map[int]bool{}
+		cand := []int{1, 2, nEntries - 1}
+		if !full {
+			cand = []int{1, nEntries - 1}
+		}
+		for _, i := range cand {
+			if i >= 1 && i < nEntries {
+				pos[i] = true
+			}
+		}
+		for i := 1; i < nEntries; i++ {
+			if !pos[i] {
+				continue
+			}
+			for shape := range entryShapeNames {
+				if sn := entryShapeNames[shape]; !full && (sn == "bytes" || sn == "empty-map" || sn == "null") {
+					continue
+				}
+				cl := root.Clone()
+				cc := at(cl, c.path)
+				if entryShapeNames[shape] == "removed" {
+					cc.Items = append(cc.Items[:i*step:i*step], cc.Items[(i+1)*step:]...)
+				} else {
+					cc.Items[i*step+step-1] = reshapeEntry(cc.Items[i*step+step-1], shape)
+				}
+				out = append(out, hc{fmt.Sprintf("entry:%s%v[%d]->%s", name, c.path, i, entryShapeNames[shape]), cl.Encode()})
+			}
+		}
+		for _, shape := range []int{0, 1, 4} { // append [], [0], 0
+			cl := root.Clone()
+			cc := at(cl, c.path)
+			if step == 2 {
+				cc.Items = append(cc.Items, xcbor.U(uint64(1000+shape)))
+			}
+			cc.Items = append(cc.Items, reshapeEntry(xcbor.A(xcbor.U(0), xcbor.U(1)), shape))
+			out = append(out, hc{fmt.Sprintf("entry:%s%v+append-%s", name, c.path, entryShapeNames[shape]), cl.Encode()})
+		}
+	}
+	return out
 }
